@@ -161,3 +161,25 @@ def scriptnum_enc_minimal(v):
     """the encoding is a minimal form (accepted under MINIMALDATA)"""
     le_digits_msb(abs(v))
     return is_minimal_num(scriptnum_enc(v))
+
+
+# ---------------------------------------------------------------- the minimal form is unique
+@lemma(sig=dict(x=Bytes()), induct=lambda x: len(x), props=["C12"])
+def le_digits_of_value(x):
+    """a little-endian digit string without a zero most significant byte is the digit string of its value"""
+    if len(x) > 0:
+        le_digits_of_value(x[1:])
+    return implies(len(x) == 0 or x[len(x) - 1] != 0, le_digits(le_value(x)) == x and (le_value(x) > 0) == (len(x) > 0))
+
+
+@lemma(sig=dict(s=Bytes()), options={'reveal': ['scriptnum_enc', 'scriptnum_dec', 'is_minimal_num']}, props=["C12"])
+def scriptnum_minimal_unique(s):
+    """a minimal form is the encoding of the number it denotes: no integer has two minimal forms"""
+    n = len(s)
+    if n > 0:
+        last = s[n - 1]
+        body = s[:n - 1] + bytes([last % 128])
+        le_digits_of_value(body)
+        le_digits_of_value(s[:n - 1])
+        le_value_trailing_zero(s[:n - 1])
+    return implies(is_minimal_num(s), scriptnum_enc(scriptnum_dec(s)) == s)
